@@ -203,15 +203,24 @@ func famShared(tw *traceWriter, r *rand.Rand, n int) {
 	}
 }
 
-// C12: Preprocess functions (Parse): mismatch and error become issues and skip the wrapped schema
+// C12: Preprocess functions: in Parse a mismatch or error becomes an issue and skips the wrapped schema; in Validate the
+// function gets the pointer, its result is stored and validated, an error becomes an issue and skips the wrapped schema
 func famPreprocess(tw *traceWriter, r *rand.Rand, n int) {
 	for i := 0; i < n; i++ {
 		g := genCfg{maxDepth: 2, pre: true, noPath: true}
 		sch := genStruct(r, g, 0)
-		c := &Case{ID: fmt.Sprintf("pp%d", i), Mode: "parse", Fe: "map", Schema: sch}
-		c.Input = genParseInput(r, sch, "map")
-		if c.Input.T != "map" {
-			c.Input = mapIn()
+		mode := "parse"
+		if i%3 == 2 {
+			mode = "validate"
+		}
+		c := &Case{ID: fmt.Sprintf("pp%d", i), Mode: mode, Fe: "map", Schema: sch}
+		if mode == "parse" {
+			c.Input = genParseInput(r, sch, "map")
+			if c.Input.T != "map" {
+				c.Input = mapIn()
+			}
+		} else {
+			c.Input = genValue(r, sch)
 		}
 		tw.emitCase(c, "", true)
 	}
